@@ -29,6 +29,8 @@ def find_ty(t, name):
 
 class Heap:
     """Builder of terminal cells in a simulator state."""
+    following = False      # True: terminals follow a (symbolic) getter for state and command
+
     def __init__(self, sim, st, terminal_ty):
         self.sim, self.st, self.tty = sim, st, terminal_ty
         self.fields = sim.adt_fields(terminal_ty)
@@ -43,7 +45,7 @@ class Heap:
         out = []
         for n, t in fs:
             if n == "following":
-                out.append(self.sim.mk_enum(t, "None"))
+                out.append(self.sim.mk_enum(t, "Some", [Sym("followed_%d" % len(self.st.mem), t["args"][0])]) if self.following else self.sim.mk_enum(t, "None"))
             else:
                 out.append(self.sim.mk_enum(t, "None") if req is None else self.sim.mk_enum(t, "Some", [req]))
         return Struct(ty, out)
@@ -123,12 +125,13 @@ def terminal_getters(prog):
     return out
 
 
-def run_terminal_get(sim, prog, getfn, own_state, own_cmd, partner, p_state=False, p_cmd=False):
+def run_terminal_get(sim, prog, getfn, own_state, own_cmd, partner, p_state=False, p_cmd=False, following=False):
     """Simulate <Terminal as Getter<X>>::get on terminal 'a' (optionally linked to 'b')."""
     st = S.State()
     gargs = sim.identity_gargs(getfn)
     tty = subst(getfn["impl_self"], gargs)
     h = Heap(sim, st, tty)
+    h.following = following
     h.cell("a", own_state, own_cmd)
     if partner:
         h.cell("b", p_state, p_cmd)
